@@ -13,6 +13,11 @@ oracle     : real verilog.parse / bench.parse -> resolve_tlib_cells -> real Logi
 correspond.: Lean model (Model/Netlist.lean through the compiled driver, fed with the statement list the generator rendered)
              == the real parsed circuit: node list (kind, name) in creation order, line list with pins, io list, and the
              connectivity table obtained by walking the real circuit.  Mismatch = broken tie.
+text level : Lean lexer + grammar models (Model/BenchText.lean, Model/VerilogText.lean; driver `benchparse` / `verilogparse`)
+             on the TEXT: for every generated text, fixed corner-case texts (TEXT_PROBES) and random small edits of generated
+             texts: lark on the real GRAMMAR string (no transformer) accepts <=> the model accepts; lark's tree == the model's
+             statement list (== the generator's); the model circuit built from the model's OWN parse == the real circuit, or
+             both raise (text_check).  Mismatch = broken tie.
 """
 import json, os, glob
 import numpy as np
@@ -36,9 +41,12 @@ RULE = ('random flat netlists (1-7 input bits, 1-5 output bits, 0-3 flip-flops/l
         'evaluation, port order, Verilog-vs-bench equivalence, and model-vs-code structure (nodes, lines with pins, ports, '
         'connectivity).  A second stream mutates statement lists to the edge of / out of the subset (duplicate names, buses on pins, '
         'unknown pins, width mismatch, undeclared ports, ...): model and code must both raise or build the same circuit.  '
-        'distinct = (format, library, branchforks, text); non-trivial = at least 3 statements and an output that takes both values')
+        'Text level: every generated text, about 140 fixed lexer/grammar corner-case texts and 1-3 random small edits per text (delete, '
+        'insert, replace, swap, cut, duplicate, truncate, join lines, snippets) through the Lean lexer+grammar model vs lark on the real '
+        'grammar vs the real parser.  distinct = (format, library, branchforks, text); non-trivial = at least 3 statements and an output that takes both values')
 
 VLIBS = ['NANGATE', 'SAED32', 'SAED90', 'GSC180']
+TEXT_FMTS = ('bench', 'verilog')      # formats whose lexer + grammar are modelled in Lean (Model/BenchText.lean, Model/VerilogText.lean)
 
 
 def theorems():
@@ -253,7 +261,8 @@ def eval_case(case):
 
 # ---------------------------------------------------------------------------------------------- model side (driver)
 def pct(s):
-    return ''.join(ch if (ch.isalnum() and ch.isascii()) or ch == '_' else '%%%02x' % ord(ch) for ch in s) or '%'
+    return ''.join(ch if (ch.isalnum() and ch.isascii()) or ch == '_' else ('%%%02x' % ord(ch) if ord(ch) < 256 else '%%u%06x' % ord(ch))
+                   for ch in s) or '%'
 
 
 def enc_sel(a):
@@ -367,7 +376,9 @@ def probe_cfg():
 
 def model_answer(case):
     """the Lean model's (status, io, nodes, lines, conn) for the case's statement list"""
-    if case['fmt'] == 'verilog':
+    if case.get('_req'):
+        req = case['_req']
+    elif case['fmt'] == 'verilog':
         kinds = [s[1] for s in case['ast']['stmts'] if s[0] == 'inst']
         fix, one = probe_cfg()
         cfg = f"{1 if case['bf'] else 0}{1 if fix else 0}{1 if one else 0}"
@@ -404,6 +415,258 @@ def correspondence(ck, case, c):
 
 def _slim(case):
     return {k: v for k, v in case.items() if not k.startswith('_')}
+
+
+# ---------------------------------------------------------------------------------------------- text level (lexer + grammar)
+_glark = {}
+
+
+def grammar_parser(fmt):
+    """lark on the REAL grammar string without the transformer: accepts exactly the texts bench.parse / verilog.parse accept
+    syntactically and returns the parse tree"""
+    if fmt not in _glark:
+        from lark import Lark
+        from kyupy import verilog, bench
+        _glark[fmt] = Lark((verilog if fmt == 'verilog' else bench).GRAMMAR, parser='lalr')
+    return _glark[fmt]
+
+
+def bench_tree_stmts(tree):
+    out = []
+    for st in tree.children:
+        t = st.children[0]
+        if t.data == 'interface':
+            out.append(['intf', [str(x) for x in t.children[0].children]])
+        else:
+            out.append(['gate', str(t.children[0]), str(t.children[1]), [str(x) for x in t.children[2].children]])
+    return out
+
+
+TEXT_ALPHABET = list(' \t\n\r\f\x0b#()=,;.:[]{}\'\\/*-_aZf09xbdh"$+') + ['K', 'ſ', 'İ', 'é', ' ', ' ']
+SNIPPETS = ['# c\n', '#', '\r\n', '\r', '//x\n', '//', '/*x*/', '/*', '*/', '(*x*)', '(*', '*)', '\\', '\\e ', "1'b0", '[0]', '[1:0]',
+            'INPUT', 'input', 'OUTPUT(', 'module', 'endmodule', 'wire', 'assign', ' = ', '()', '{', '}', ';', ',,', 'tri t;']
+
+
+TEXT_PROBES = {
+    'bench': ['', ' ', '#', '# x', '\n\n', '\r\n', '\r', 'INPUT(a)\r', 'INPUT(a)#c\r\nOUTPUT(b)', 'INPUT ( a , b )', 'INPUT(a,)', 'INPUT(,a)',
+              'INPUT()', 'input()OUTPUT()output()', 'INPUT = AND(a)', 'Input(a)', 'INPUTX(a)', 'x = INPUT(INPUT, OUTPUT)',
+              'z=AND(a,b)z2=OR(a,b)', 'z = AND(a b)', 'z = (a)', 'z = AND', 'z = AND(a', 'z == AND(a)', 'a-b = -(_)', 'K = ſ(İ, ı)',
+              'é = AND(a)', 'z = AND(a)\x0b', 'z = AND(a)\x0c', 'z\t=\tAND(a)', 'z = AND(a) # c\ny = OR(a)', 'INPUT(a) OUTPUT(INPUT)',
+              'OUTPUT', '7 = 8(9)', 'INPUT(a)) ', 'z = AND(a);', 'z = AND(a.b)', 'INPUT(a)\r\r\nOUTPUT(b)', 'INPUT(a) #\rOUTPUT(b)\nOUTPUT(c)',
+              'output(z)\nz = DFF(z)', 'INPUT(a)\n\nOUTPUT(a)\n'],
+    'verilog': ['', '  ', '// c\n', '// c', '/* c */', '/* c', '(* a *)', '(* a', 'module', 'module m', 'module m;', 'module m(); endmodule',
+                'modulem();endmodule', "module1'b0();endmodule", 'module 1x(); endmodule', 'module1x(); endmodule', 'module m() ; endmodule endmodule',
+                'module m(); endmodule module', 'module m(); endmodulemodule n(); endmodule', 'module m(a,); endmodule',
+                'module m(a b); endmodule', 'module module(module); input module; endmodule', 'module m(); wire input; endmodule',
+                'module m(); wire wire; endmodule', 'module m(); input; endmodule',
+                'module m(); input [3:0] a, b; output [0] c; inout [ 7 : 0 ] d; tri t; endmodule', 'module m(); wire [3:0 a; endmodule',
+                'module m(); wire [3:0] [1:0] a; endmodule', 'module m(); wire [a] b; endmodule', "module m(); wire [1'b0] b; endmodule",
+                'module m(); assign a = b; endmodule', "module m(); assign a[1] = {b, c[3:2], {d}, 2'b01}; endmodule",
+                'module m(); assign {} = a; endmodule', "module m(); assign a = 4'hfg; endmodule", "module m(); assign a = 4'b; endmodule",
+                "module m(); assign a = 4 'b0; endmodule", 'module m(); assign a = 12; endmodule', 'module m(); X u(); endmodule',
+                'module m(); X u(a); endmodule', 'module m(); X u(.A); endmodule', 'module m(); X u(.A()); endmodule',
+                'module m(); X u(.A(a),); endmodule', 'module m(); X u(.A(a) .B(b)); endmodule', 'module m(); X u(.A(a), b, {c,d}); endmodule',
+                'module m(); X \\u (.A(a)); endmodule', 'module m(); X \\u(.A(a)); endmodule', 'module m(); X \\u\t(.A(a)); endmodule',
+                'module m(); X \\u\r\n(.A(a)); endmodule', 'module m(); X \\u\r(.A(a)); endmodule', 'module m(); \\input u(.A(a)); endmodule',
+                'module m(); input u(.A(a)); endmodule', 'module m(); assign u(.A(a)); endmodule', 'module m(); X assign(.A(a)); endmodule',
+                'module m(); X u(.input(a)); endmodule', 'module m(); X u(.A(a))(* k *); endmodule', 'module m(); X u(.A(*)); endmodule',
+                'module m(); X u(.A(* *)); endmodule', 'module m(); X u ( . A ( a [ 1 : 0 ] ) ) ; endmodule', 'module m(); X u(.A(a));; endmodule',
+                'module m(); ; endmodule', 'module m(); X u(.A(a)) endmodule', 'module m(); wire a\r; endmodule', 'module m(); wire a;\r\nendmodule',
+                'module m(); wire a; // c\r\nendmodule', 'module m(); wire a; // c\rendmodule', 'module m(); wire a; /* * / */ endmodule',
+                'module m(); wire a; /*/ endmodule', 'module m(); wire a; /**/ endmodule', 'module m(); wire a; /***/ endmodule',
+                'module m(); wire a; (*) endmodule', 'module m(); wire a; (**) endmodule', 'module m(); wire a; (* ) *) endmodule',
+                'module m(); wire a / b; endmodule', 'module m(); wire K, ſ1, _x; endmodule', 'module m(); wire x$; endmodule',
+                'module m(); wire \\é ; endmodule', 'module m(); wire é; endmodule', 'module m(); wire a;\x0cendmodule',
+                'module m(); wire a;\x0bendmodule', "module m(); 4'b0 4'b1 (.4'b1(4'b1)); endmodule", "module m(); X u(.A(\\4'b01 )); endmodule",
+                "module m(); X u(.A(\\a'b )); endmodule", 'module m(); wire [007:00] a; endmodule',
+                'module m(); wire a, b, c ; X \\y (.A(a)) ; endmodule\n', 'MODULE m(); endmodule', 'module m(); ENDMODULE', 'module m(); Wire a; endmodule',
+                'module m(a, z); input a; output z; INV_X1 u(.A(a), .ZN(z)); endmodule // end', 'module m(a, z); input a; output z; INV_X1 u(.A(a), .ZN(z)); endmodule // end\n',
+                "module m(z); output [3:0] z; assign z = 4'HA; endmodule", "module m(z); output [3:0] z; assign z = 04'd10; endmodule",
+                'module m(a, z); input a; output z; INV_X1\\u (.A(a), .ZN(z)); endmodule', "module m(a, z); input a; output z; INV_X1 u(.A(a), .ZN(z));endmodule(* x *)",
+                'module m(a, z); input [1:0] a; output z; AND2_X1 u(.A1(a[1]), .A2(a[0]), .ZN(z)); endmodule',
+                'module m(a, z); input a; output z; INV_X1 u(.A(a), .ZN(z), .A()); endmodule']}
+
+
+def mutate_text(rng, text):
+    """one small edit of a text: (text', label)"""
+    op = rng.choice(['delete', 'delete', 'insert', 'insert', 'replace', 'swap', 'snippet', 'cut', 'dup', 'truncate', 'join-lines'])
+    n = len(text)
+    if n == 0: return rng.choice(TEXT_ALPHABET), 'insert'
+    i = rng.randrange(n)
+    if op == 'delete': return text[:i] + text[i + 1:], op
+    if op == 'insert': return text[:i] + rng.choice(TEXT_ALPHABET) + text[i:], op
+    if op == 'replace': return text[:i] + rng.choice(TEXT_ALPHABET) + text[i + 1:], op
+    if op == 'swap' and i + 1 < n: return text[:i] + text[i + 1] + text[i] + text[i + 2:], op
+    if op == 'snippet': return text[:i] + rng.choice(SNIPPETS) + text[i:], op
+    if op == 'cut':
+        j = min(n, i + rng.randint(1, 6)); return text[:i] + text[j:], op
+    if op == 'dup':
+        j = min(n, i + rng.randint(1, 4)); return text[:j] + text[i:j] + text[j:], op
+    if op == 'truncate': return text[:i], op
+    if op == 'join-lines':
+        k = text.find('\n', i)
+        if k >= 0: return text[:k] + text[k + 1:], op
+    return text[:i] + rng.choice(TEXT_ALPHABET) + text[i:], 'insert'
+
+
+def text_check(ck, fmt, text, tlib, bf, label, expect_ast=None, real=None):
+    """the Lean text model (lexer + grammar, driver `benchparse` / `verilogparse`) against lark on the real grammar and against
+    the real parser on ONE text: both accept or both reject; same statement list; and the model circuit built from the model's
+    OWN parse of the text equals the real circuit (or both raise).  returns 'accept' / 'reject'"""
+    from lark.exceptions import UnexpectedInput
+    inp = {'fmt': fmt, 'tlib': tlib, 'bf': bf, 'text': text, 'label': label}
+    try:
+        ans = common.run_driver([f"{'benchparse' if fmt == 'bench' else 'verilogparse'} {pct(text)}"])[0]
+    except Exception as ex:
+        ck.broken_tie(f'text model ({fmt})', f'driver: {type(ex).__name__}: {ex}'[:300], inp=inp); return 'error'
+    m_ok = ans.startswith('ok ')
+    try:
+        tree = grammar_parser(fmt).parse(text); l_ok = True
+    except UnexpectedInput as ex:
+        tree = None; l_ok = False; lerr = f'{type(ex).__name__} at {getattr(ex, "pos_in_stream", "?")}'
+    if m_ok != l_ok:
+        ck.broken_tie(f'text model ({fmt}): accept/reject', f"lark {'accepts' if l_ok else 'rejects (' + lerr + ')'}, model answers {ans[:80]!r}", inp=inp)
+        return 'accept' if l_ok else 'reject'
+    case = {'fmt': fmt, 'tlib': tlib, 'bf': bf, 'text': text, 'label': label}
+    if not l_ok:
+        if label == 'probe' or ck.rng.random() < 0.34:     # the real parser builds a new Lark object per call (70 ms): sampled
+            try:
+                parse_real(case)
+                ck.broken_tie(f'text model ({fmt}): accept/reject', 'grammar rejects the text but the real parser returned a circuit', inp=inp)
+            except Exception:
+                pass
+        return 'reject'
+    if fmt == 'bench':
+        toks = ans[3:]
+        ltoks = enc_bench(bench_tree_stmts(tree))
+        if toks != ltoks:
+            ck.broken_tie('text model (bench): statement list', f'lark tree {ltoks[:200]!r} != model {toks[:200]!r}', inp=inp); return 'accept'
+        if expect_ast is not None and enc_bench(expect_ast) != toks:
+            ck.broken_tie('text model (bench): statement list', f'generator {enc_bench(expect_ast)[:200]!r} != model {toks[:200]!r}', inp=inp)
+        case['_req'] = f'netlist b {toks}'
+    else:
+        r = verilog_text_request(ck, ans, tree, tlib, bf, inp, expect_ast)
+        if r is None: return 'accept'
+        case['_req'] = r
+    if real is not None:
+        c = real[0]
+    else:
+        try:
+            c = parse_real(case)
+        except Exception:
+            c = None
+    correspondence(ck, case, c)
+    return 'accept'
+
+
+def text_stream(ck, case, n_mut, real=None):
+    """text-level correspondence on one generated text and `n_mut` small edits of it; real = (circuit or None,) when the real
+    parser has already been run on the text"""
+    fmt = case['fmt']
+    st = text_check(ck, fmt, case['text'], case['tlib'], case['bf'], 'generated', expect_ast=case.get('ast'), real=real)
+    ck.hist[f'text:{fmt}:generated:{st}'] += 1
+    for _ in range(n_mut):
+        t, op = mutate_text(ck.rng, case['text'])
+        if ck.rng.random() < 0.25: t, op2 = mutate_text(ck.rng, t); op = op + '+' + op2
+        st = text_check(ck, fmt, t, case['tlib'], case['bf'], 'edit:' + op)
+        ck.hist[f'text:{fmt}:edited:{st}'] += 1
+        ck.case(key=('text', fmt, t), nontrivial=False, tag=[f'text-edit:{op.split("+")[0]}:{st}', 'stream:text'])
+
+
+class Unsupported(Exception):
+    pass
+
+
+def verilog_tree_ast(tree):
+    """lark tree of ONE module (grammar only, no transformer) -> (status, ast) in the generator's statement-list form;
+    status 'pos': a positional pin (left out of the ast; VerilogTransformer.module raises), 'unsup': a name with an
+    apostrophe that is not a sized constant"""
+    import re
+
+    def name(t):
+        v = str(t.children[0])
+        return v[1:-1] if v[0] == '\\' else v
+
+    def sel(t):
+        ch = t.children
+        if ch[0].data == 'concat': return ['c', [sel(x) for x in ch[0].children]]
+        n = name(ch[0])
+        if len(ch) > 1:
+            rg = ch[1].children
+            return ['b', n, int(rg[0]), int(rg[1]) if len(rg) > 1 else None]
+        if "'" in n:
+            m = re.fullmatch(r"([0-9]+)'([bdhBDH])([0-9a-fA-F]+)", n)
+            if not m: raise Unsupported(n)
+            return ['k', int(m[1]), m[2], m[3]]
+        return ['n', n]
+    status = 'ok'
+    ch = tree.children
+    ast = {'name': name(ch[0]), 'ports': [name(x) for x in ch[1].children], 'stmts': []}
+    for st in ch[2:]:
+        if st.data in ('input', 'output', 'inout', 'wire', 'tri'):
+            c2 = list(st.children)
+            rg = None
+            if c2 and c2[0].data == 'range':
+                rg = [int(x) for x in c2[0].children]; c2 = c2[1:]
+            ast['stmts'].append(['other'] if st.data == 'tri' else ['decl', 'input' if st.data == 'inout' else st.data, rg, [name(x) for x in c2]])
+        elif st.data == 'assign':
+            ast['stmts'].append(['assign', sel(st.children[0]), sel(st.children[1])])
+        else:
+            pins = []
+            for p in st.children[2:]:
+                q = p.children[0]
+                if q.data == 'namedpin':
+                    pins.append([name(q.children[0]), sel(q.children[1]) if len(q.children) > 1 else None])
+                else:
+                    sel(q); status = 'pos'
+            ast['stmts'].append(['inst', name(st.children[0]), name(st.children[1]), pins])
+    return status, ast
+
+
+def verilog_text_request(ck, ans, tree, tlib, bf, inp, expect_ast):
+    """compare the model's parse (driver answer) with lark's tree; returns the `netlist v` request for the model's OWN
+    statement list, or None when there is nothing to build (several modules, positional pins, unsupported names)"""
+    parts = ans.split(' ')
+    mods = tree.children
+    if int(parts[1]) != len(mods):
+        ck.broken_tie('text model (verilog): module count', f'lark {len(mods)} != model {parts[1]}', inp=inp); return None
+    if len(mods) != 1:
+        ck.hist['text:verilog:not-one-module'] += 1
+        try:
+            parse_real({'fmt': 'verilog', 'tlib': tlib, 'bf': bf, 'text': inp['text']})
+            ck.broken_tie('text model (verilog): module count', f'{len(mods)} modules but the real parser returned one circuit', inp=inp)
+        except Exception:
+            pass
+        return None
+    try:
+        status, ast = verilog_tree_ast(mods[0])
+        expect = f"ok 1 {status} {pct(ast['name'])} {enc_verilog(ast)}"
+    except Unsupported:
+        status, ast = 'unsup', None
+        expect = f"ok 1 unsup {pct(verilog_tree_name(mods[0]))} ~"
+    if ans != expect:
+        ck.broken_tie('text model (verilog): statement list', f'lark tree {expect[:300]!r} != model {ans[:300]!r}', inp=inp); return None
+    if status == 'unsup':
+        ck.hist['text:verilog:unsupported-name'] += 1; return None
+    if expect_ast is not None and (enc_verilog(expect_ast) != enc_verilog(ast) or expect_ast['name'] != ast['name']):
+        ck.broken_tie('text model (verilog): statement list', f'generator {enc_verilog(expect_ast)[:300]!r} != model {enc_verilog(ast)[:300]!r}', inp=inp)
+    if status == 'pos':
+        ck.hist['text:verilog:positional-pin'] += 1
+        try:
+            parse_real({'fmt': 'verilog', 'tlib': tlib, 'bf': bf, 'text': inp['text']})
+            ck.broken_tie('text model (verilog): positional pin', 'the real parser returned a circuit', inp=inp)
+        except Exception:
+            pass
+        return None
+    kinds = [s[1] for s in ast['stmts'] if s[0] == 'inst']
+    fix, one = probe_cfg()
+    cfg = f"{1 if bf else 0}{1 if fix else 0}{1 if one else 0}"
+    return f"netlist v {cfg} {enc_pintable(get_tlib(tlib), kinds)} {parts[4]}"
+
+
+def verilog_tree_name(t):
+    v = str(t.children[0].children[0])
+    return v[1:-1] if v[0] == '\\' else v
 
 
 # ---------------------------------------------------------------------------------------------- case construction
@@ -450,6 +713,7 @@ def run_netlist(ck, nl, cases, notes):
         except Exception as ex:
             c = None
         correspondence(ck, case, c)
+        if case['fmt'] in TEXT_FMTS: text_stream(ck, case, 2 if case['fmt'] == 'verilog' else 3, real=(c,))
         try:
             ok, obs, exp = eval_case(case)
         except Exception as ex:
@@ -631,6 +895,7 @@ def odd_stream(ck, n, notes):
             except Exception as ex:
                 c = None; status = 'raises'
             correspondence(ck, odd, c)
+            if odd['fmt'] in TEXT_FMTS: text_stream(ck, odd, 1, real=(c,))
             ck.case(key=('odd', odd['fmt'], odd['text']), nontrivial=False, tag=[f'odd:{label}:{status}', 'stream:odd'])
             done += 1
 
@@ -662,6 +927,10 @@ def run(ck):
     cells.LIBS.setdefault('BENCH', bench_lib())
     for case in corpus_cases():
         run_netlist(ck, case['nl'], [case], notes)
+    for fmt, texts in TEXT_PROBES.items():       # fixed lexer / grammar corner cases: model vs lark vs the real parser
+        for t in texts:
+            st = text_check(ck, fmt, t, 'NANGATE', False, 'probe')
+            ck.hist[f'text:{fmt}:probe:{st}'] += 1
     n = 45 * ck.scale
     stream(ck, n, notes)
     odd_stream(ck, n, notes)
@@ -674,8 +943,12 @@ def run(ck):
     ck.extra['distribution'] = dict(sorted(ck.hist.items()))
     ck.notes += [f'{k} (x{v})' for k, v in notes.items()]
     ck.assumptions += [
-        'lark (grammar, lexer), Python dict/str semantics and NumPy are exercised through generated texts, not modelled; the Lean '
-        'model starts at the statement list handed to VerilogTransformer / BenchTransformer',
+        'the lexer and grammar are modelled in Lean by a hand-written contextual lexer + recursive-descent parser (round-trip theorems '
+        'in Props/C11.lean); that lark implements the GRAMMAR strings as this model reads them is checked by correspondence on generated, '
+        'fixed corner-case and randomly edited texts (accept/reject, parse tree, resulting circuit), not proved; Python dict/str semantics '
+        'and NumPy are exercised, not modelled',
+        "text level, outside the modelled domain (counted as text:verilog:unsupported-name, not compared): an escaped identifier that "
+        "contains an apostrophe but is not of the sized-constant shape (sigsel would hand it to Python's int())",
         'supported subset: named pin connections to single-bit selections; every port declared input/output; distinct instance, '
         'port-bit and pin names; equal widths on both sides of an assign; no signal name contains ~ or \'',
         'cell functions come from a hand-written datasheet (harness/c11_cells.py) whose pin names/directions are checked against '
